@@ -76,9 +76,10 @@ type Conn struct {
 	closeReadCtx  context.Context
 	closeReadDone chan struct{}
 
-	closed  chan struct{}
-	closeMu sync.Mutex
-	closing bool
+	closed     chan struct{}
+	closeMu    sync.Mutex
+	closeFuncs []func() // run by close, guarded by closeMu; see onClose
+	closing    bool
 
 	pingCounter   int32
 	activePingsMu sync.Mutex
@@ -156,6 +157,10 @@ func (c *Conn) close() error {
 	}
 	runtime.SetFinalizer(c, nil)
 	close(c.closed)
+	for _, f := range c.closeFuncs {
+		f()
+	}
+	c.closeFuncs = nil
 
 	// Have to close after c.closed is closed to ensure any goroutine that wakes up
 	// from the connection being closed also sees that c.closed is closed and returns
@@ -165,6 +170,18 @@ func (c *Conn) close() error {
 	c.msgWriter.close()
 	c.msgReader.close()
 	return err
+}
+
+// onClose arranges for f to be called when the connection is closed, by whatever
+// closes it. If it is closed already f is called at once.
+func (c *Conn) onClose(f func()) {
+	c.closeMu.Lock()
+	defer c.closeMu.Unlock()
+	if c.isClosed() {
+		f()
+		return
+	}
+	c.closeFuncs = append(c.closeFuncs, f)
 }
 
 func (c *Conn) timeoutLoop() {
